@@ -4,25 +4,42 @@ tied to the code by state comparison + one-sided measurements (stage C) and by t
 import base64, struct
 
 ID = 'C03'
-GENERATORS = ['gen_font']            # Model/Font.v (reused for glyphs_from_u8_data) needs Gen/FontConsts.v
-COQ_TARGETS = ['Props/C03.vo', 'Run/RunC03.vo']
+GENERATORS = ['gen_font',            # Model/Font.v (reused for glyphs_from_u8_data) needs Gen/FontConsts.v
+              'gen_codepage', 'gen_formats']   # extension (e): the loader models of C05 / C02 (Model/C05*.v, Model/C02Loaders.v) need Gen/Codepage.v, Gen/Formats.v
+COQ_TARGETS = ['Props/C03.vo', 'Run/RunC03.vo', 'Run/RunC03L.vo']
 PROPS_MODULE = 'Props.C03'
 THEOREMS = ['cost_bound', 'cost_bound_sp', 'prim_ticks_bound', 'ticks_bound_scroll', 'tick_version_same_state', 'fixed_arms_only', 'sp_arms_only',
             'rep_linear', 'rep_refuted', 'hexmacro_refuted', 'macro_recursion_refuted', 'sixel_repeat_linear', 'sixel_raster_refuted',
-            'avatar_repeat_bound', 'glyph_iters_bound', 'window_ticks_bound']
+            'avatar_repeat_bound', 'glyph_iters_bound', 'window_ticks_bound',
+            # extension (a): allocation
+            'alloc_version_same_state', 'alloc_counts_growth', 'alloc_dominates', 'alloc_bound', 'alloc_bound_state', 'alloc_bound_sp', 'alloc_bound_dollar',
+            # extension (b): weighted iteration totals, rectangle clip
+            'ticks_bound', 'ticks_bound_sp', 'rect_clip', 'ticks_bound_dollar', 'ticks_bound_rqcra', 'dollar_arms_only', 'rqcra_arm_only',
+            # extension (c): hex-macro repeat groups, macro replay
+            'hexmacro_bound', 'hexmacro_bound_cond', 'hexmacro_linear', 'macro_replay_bound', 'macro_invokes_half', 'macro_table_ok',
+            # extension (d): sixel decoder
+            'sixel_ticks_bound', 'sixel_alloc_bound', 'sixel_image_bound',
+            # extension (e): binary loaders
+            'load_ticks_bound_pair', 'load_ticks_bound_xbc', 'load_ticks_bound_tnd', 'load_ticks_bound_idf']
 SWEEP_LEMMAS = []
 TRUSTED = ['Coq 8.16.1 kernel + vm_compute (model evaluation in stage C); no axioms (Print Assumptions: closed)',
            'Model/Cost.v re-states the loops of Model/TermCore.v / AnsiTok.v with counters (tick_version_same_state: same state); the arms changed by the '
            'fix: commits are hand-modelled and tied by stage C (full state comparison incl. a content hash, allocation one-sided)',
            'harness/src/c03.rs (observer: wall time, rows/cells before and after, buffer/layer height, caret, widest row, content hash, peak RSS growth; kind c03st: '
            'the observation vector of harness/src/c09.rs (Term::obs) after the entry and after the probe, row lengths, tab stops)',
-           'process limits of the worker (5 s wall clock, 1 GiB address space, default 8 MiB main-thread stack / 2 MiB sixel threads)']
-UNMODELLED = ['real time and memory (the theorems count iterations and allocated rows/cells; Vec::insert/remove count as one step)',
-              'REP per-iteration weight is an upper estimate (1 + a scroll when margins are set); REP ticks are not part of ticks_bound',
-              'alloc_bound is proved for ICH/DCH/CVT/CBT only; for SU/SD/SL/SR/IL/DL/erase/fill the allocation is compared one-sidedly by stage C',
-              'macro replay cost (only characters replayed, nesting by fuel); OSC, APS, music strings: linear scans, not modelled',
-              'binary loaders (XBin, IDF, Tundra, ADF, BIN, IcyDraw): no cost model, stage S only',
-              'sixel decode cost beyond the repeat loop and the raster request; font loaders beyond glyphs_from_u8_data']
+           'process limits of the worker (5 s wall clock, 1 GiB address space, default 8 MiB main-thread stack / 2 MiB sixel threads)',
+           'extension: Model/Alloc.v (threaded allocation counters), Model/SixelCost.v, Model/LoadCost.v re-state loops of TermCore / Sixel / the C05-C02 loader models with counters; '
+           'every bound theorem carries the equality with the original function, the hand-written parts are tied by the stage-C comparisons listed in RULE; '
+           'the models of C05 / C02 (loaders), C14 (Sixel.v), C09/C01 (TermCore.v, AnsiTok.v) are imported unchanged']
+UNMODELLED = ['real time and memory (the theorems count iterations and allocated rows/cells/bytes; Vec::insert/remove count as one step)',
+              'REP: outside alloc_bound / ticks_bound (final byte b is the known class of both; its threaded counter rep_a is computed, dominates the growth '
+              '(alloc_dominates) and is compared one-sidedly by stage C; its per-iteration weight is an upper estimate)',
+              'macro replay: macro_replay_bound is about macro_chars (characters replayed, nesting through `ESC [ n * z` occurrences, fuel = depth); a macro that '
+              'DEFINES macros while it is replayed is not covered; OSC, APS, music strings: linear scans, not modelled',
+              'binary loaders: the cell loops of BIN / ADF / XBin (both) / Tundra / IDF are counted (load_ticks_bound_*); rows x cells of the loaded layer are proved '
+              'for the sequential loaders (pair_loop) and, for Tundra, the row count; IcyDraw (.icy) and the text loaders (ans, pcb, avt, ...) have no cost model: stage S only',
+              'sixel: colour registers (palette growth by `#n`) are not counted; the decode thread / queue is C14\'s',
+              'font loaders beyond glyphs_from_u8_data; states after a text-area resize (outside Inv09): stage C state comparison + stage S only']
 ASSUMPTIONS = ['the state satisfies the C09 invariant Inv09 (every state reachable without a text-area resize does: Props/C09.v c09_stream); states after a resize '
                'are outside the theorems and covered by stage C (state equality with the model) and stage S (prepared states) only',
                'n >= number of parameters (each parameter occupies at least one byte of the sequence)',
@@ -47,8 +64,13 @@ RULE = ('stage S: the complete control-function table of the quantifier: every C
         'clamped vs unclamped model on the same inputs; STATE comparison (run_state vs kind c03st): every implemented control function in every prepared state '
         '(+ random (final, intermediate) pairs, parameters up to 2^31-1, optional probe suffix): error count, caret, buffer/layer/terminal size, number of rows, margins, mode flags, '
         'tab stops, every row length, content hash must be equal after the entry and after the probe, so a sequence the model rejects must be an error without effect in the code. '
+        'EXTENSION cases of stage C: the rectangle functions (4/5/6 parameters from {0,1,2,h-1,h,h+1,w-1,w,w+1,200,99999,2^31-1}, valid and invalid fill characters, valid DECRQCRA rectangles), '
+        'window resize and the insert/delete key in the same random table, each with the threaded allocation counter and the instances of alloc_bound / ticks_bound; hex macros invoked after a form feed '
+        '(characters printed, read off the caret, = length of the expanded macro <= zlen s (1 + hex_reps)); 24/120 nests of up to four macros (printed <= macro_chars <= B geom c depth, depth exact); '
+        '147/627 sixel payloads (data, cursor moves, colour definitions, repeat groups <= 400, raster attributes <= 300: accept/reject, rows, bytes = rows x longest row <= sixel_image_bound); '
+        '75/250 generated BIN ADF XBin (raw and well-formed compressed runs) Tundra IDF files without SAUCE (accept/reject, width height rows cells of the loaded buffer, counters within load_ticks_bound_*). '
         'non-trivial = the sequence ran a loop at least twice or changed the line table')
-MODEL_IMPORTS = 'From IE Require Import Run.RunC03.\nLocal Open Scope Z_scope.'
+MODEL_IMPORTS = 'From IE Require Import Run.RunC03 Run.RunC03L.\nLocal Open Scope Z_scope.'
 
 E = b'\x1b'
 BIG = [65536, 1000000, 2147483647]
@@ -92,7 +114,8 @@ def tuples(rng, w, h, count, first_small_only=False):
     vals = [0, 1, w * h, h, w] + BIG
     out = [(), (2147483647,), (1000000,), (65536,), (w * h,), (1,), (0,), (2147483647, 2147483647), (1, 2147483647), (2147483647, 1),
            (8, 2147483647, 2147483647), (65, 1, 1, 2147483647, 2147483647), (1, 1, 2147483647, 2147483647), (1, 1, 1, 1, 2147483647, 2147483647),
-           (0, 2147483647), (1, 1000000), (2, 1000000, 1000000)]
+           (0, 2147483647), (1, 1000000), (2, 1000000, 1000000),
+           (1, 1, 0, 0, 2147483647, min(w, 80))]      # a rectangle that is tall but not wide (DECRQCRA checks each edge separately)
     while len(out) < count:
         k = rng.randint(1, 6)
         t = tuple(rng.choice(vals) for _ in range(k))
@@ -547,7 +570,10 @@ def search(ctx, broken):
 
 # ---- stage C -----------------------------------------------------------------------------------------------------------------------
 MODELLED = [('', 'S'), ('', 'T'), ('', '@'), ('', 'P'), ('', 'L'), ('', 'M'), ('', 'Y'), ('', 'Z'), ('', 'A'), ('', 'k'), ('', 'b'), (' ', '@'), (' ', 'A'),
-            ('', 'X'), ('', 'J'), ('', 'K'), ('', 'B'), ('', 'C'), ('', 'D'), ('', 'H'), ('', 'm'), ('', 'd'), ('', 'e'), ('', 'E'), ('', 'F'), ('', 'G')]
+            ('', 'X'), ('', 'J'), ('', 'K'), ('', 'B'), ('', 'C'), ('', 'D'), ('', 'H'), ('', 'm'), ('', 'd'), ('', 'e'), ('', 'E'), ('', 'F'), ('', 'G'),
+            # extension: rectangular-area operations (ticks = clipped rectangle), DECRQCRA, window resize, insert/delete key
+            ('$', 'x'), ('$', 'z'), ('$', '{'), ('*', 'y'), ('', 't'), ('', '~')]
+RECT = {('$', 'x'): 5, ('$', 'z'): 4, ('$', '{'): 4, ('*', 'y'): 6}
 STATE_IDENTICAL = [('', 'S'), ('', 'T'), ('', 'P'), ('', 'Y'), ('', 'Z'), ('', 'A'), (' ', '@'), (' ', 'A')]
 
 def c_setups(w, h):
@@ -599,6 +625,112 @@ def state_corr_cases(ctx):
         add(inter, final, t, rng.random() < 0.5)
     return meta
 
+def sixel_payloads(ctx):
+    """sixel payloads for the decoder comparison: data characters, cursor moves, colour definitions, repeat groups (count <= 400), raster attributes (<= 300)"""
+    rng = ctx.rng
+    out = [b'', b'~', b'~~-~', b'!5~', b'!0~', b'!', b'!~', b'"1;1;10;20~', b'"1;1;7~', b'"1;1~', b'"1~', b'"1;1;2;2;2~', b'#1;2;100;0;0~', b'#1;2;100;0~',
+           b'#5~', b'#300~', b'#1;1;120;50;50~', b'!400-~', b'!3$~', b'~$~-?', b'"1;1;0;0~~', b'"1;1;3;1~-~-~', b'!12"1;1;5;5~', b'!3#1~', b'>', b'~\x80~', b'#1;3;1;1;1~']
+    alpha = b'?@ABN^n~-$' * 3 + b'!#";0123456789'
+    for _ in range(ctx.n(120, 600)):
+        k = rng.randint(1, 24)
+        b = bytearray()
+        for _ in range(k):
+            r = rng.random()
+            if r < 0.12: b += b'!%d' % rng.choice([0, 1, 2, 3, 7, 40, 400]) + bytes([rng.choice(b'?~-$n')])
+            elif r < 0.2: b += b'"%d;%d;%d;%d' % (rng.randint(0, 3), rng.randint(0, 3), rng.choice([0, 1, 5, 40, 300]), rng.choice([0, 1, 6, 7, 40, 300]))
+            elif r < 0.25: b += b'"1;1;%d' % rng.choice([0, 1, 6, 13, 300])
+            elif r < 0.32: b += b'#%d;2;%d;%d;%d' % (rng.randint(0, 20), rng.randint(0, 100), rng.randint(0, 100), rng.randint(0, 100))
+            elif r < 0.36: b += b'#%d' % rng.randint(0, 300)
+            else: b += bytes([rng.choice(alpha)])
+        out.append(bytes(b))
+    return out
+
+def loader_files(ctx):
+    """binary files WITHOUT a SAUCE record for the loader comparison: (ext, fmt code, file, tick expression, info)"""
+    rng = ctx.rng
+    out = []
+    def rb(n): return bytes(rng.randrange(256) for _ in range(n))
+    def pairs(n): return bytes(rng.choice([32, 65, 66, 0, 1, 219, 255]) if i % 2 == 0 else rng.randrange(256) for i in range(n))
+    q = ctx.n(3, 10)
+    for _ in range(6 * q):
+        d = pairs(rng.choice([0, 1, 2, 3, 160, 319, 320, 322, 700, rng.randint(0, 900)]))
+        out.append(('bin', 0, d, 'run_ticks_pair %s' % zl(d), {'w': 160, 'body': len(d), 'base': 160 * 25}))
+    for _ in range(2 * q):
+        body = pairs(rng.choice([0, 1, 2, 159, 160, 161, rng.randint(0, 500)]))
+        d = b'\x01' + bytes(rng.randrange(64) for _ in range(192)) + rb(4096) + body
+        out.append(('adf', 1, d, 'run_ticks_pair %s' % zl(body), {'w': 80, 'body': len(body), 'base': 0}))
+    for _ in range(8 * q):
+        w = rng.choice([1, 2, 3, 80, 80, 80, 300, 300, 4096, 0, 4097]); h = rng.choice([0, 1, 2, 25, 1000, 65535]); fs = rng.choice([0, 8, 16, 16, 32, 33])
+        flags = rng.choice([0, 0, 4, 4, 4, 4, 8, 12, 16, 20])
+        comp = bool(flags & 4)
+        if comp and rng.random() < 0.7:          # well-formed runs (Off / Char / Attr / Full with every count), sometimes cut short
+            body = bytearray()
+            for _ in range(rng.randint(1, 8)):
+                ty = rng.choice([0, 0x40, 0x80, 0xC0]); nrun = rng.choice([1, 2, 7, 33, 63, 64])
+                body += bytes([ty | (nrun - 1)])
+                body += {0: pairs(2 * nrun), 0x40: bytes([65]) + rb(nrun), 0x80: bytes([7]) + pairs(nrun), 0xC0: bytes([66, 0x1f])}[ty]
+            body = bytes(body[:len(body) - rng.choice([0, 0, 0, 1, 2])])
+            h = rng.choice([25, 1000, 1000, 65535])
+        else:
+            body = rb(rng.choice([0, 1, 2, 3, 40, rng.randint(0, 120)])) if comp else pairs(rng.choice([0, 1, 2, 7, 2 * max(1, w) if w < 400 else 50, rng.randint(0, 300)]))
+        d = b'XBIN\x1a' + struct.pack('<HHBB', w, h, fs, flags) + body
+        out.append(('xb', 2, d, ('run_ticks_xbc %d %s' % (w, zl(body))) if comp else 'run_ticks_pair %s' % zl(body), {'w': w, 'body': len(body), 'base': 0, 'comp': comp}))
+    for _ in range(6 * q):
+        body = bytearray()
+        for _ in range(rng.randint(0, 30)):
+            r = rng.random()
+            if r < 0.2: body += b'\x01' + struct.pack('>ii', rng.choice([0, 1, 24, 25, 300, 1200]), rng.choice([0, 1, 40, 79, 79, 80]))
+            elif r < 0.5: body += bytes([rng.choice([2, 4, 6]), rng.choice(b'ABC')]) + rb(4) + (rb(4) if rng.random() < 0.5 else b'')
+            else: body += bytes([rng.choice(b'ABCDEFG \x00\x07\xff')])
+        if rng.random() < 0.3: body = body[:max(0, len(body) - rng.randint(1, 5))]
+        d = b'\x18TUNDRA24' + bytes(body)
+        out.append(('tnd', 3, d, 'run_ticks_tnd %s' % zl(bytes(body)), {'w': 80, 'body': len(body), 'base': 25}))
+    for _ in range(3 * q):
+        x1 = rng.choice([0, 0, 1, 5]); x2 = rng.choice([79, 79, 10, 0, 200]); y1 = rng.choice([0, 0, 3]); y2 = rng.choice([24, 0, 100])
+        area = bytearray()
+        for _ in range(rng.randint(0, 40)):
+            if rng.random() < 0.25: area += b'\x01\x00' + struct.pack('<H', rng.choice([0, 1, 2, 5, 80, 500])) + bytes([rng.choice(b'AB\x01'), rng.randrange(256)])
+            else: area += bytes([rng.choice(b'ABC \x01\x02'), rng.randrange(1, 256)])
+        if rng.random() < 0.3: area += rb(rng.randint(1, 3))
+        d = b'\x041.4' + struct.pack('<HHHH', x1, y1, x2, y2) + bytes(area) + rb(4096) + bytes(rng.randrange(64) for _ in range(48))
+        out.append(('idf', 4, d, 'run_ticks_idf %d %d %d %s' % (x1, x2, y1, zl(bytes(area))), {'w': x2 - x1 + 1, 'body': len(area), 'base': 25, 'y1': y1}))
+    return out
+
+def macro_nest_cases(ctx):
+    """(definitions, top id, depth): macro 1 is text, macro k+1 replays macro k several times (hex definitions, printable filler)"""
+    rng = ctx.rng
+    out = []
+    ST = E + b'\\'
+    def hexdef(i, body):
+        return E + b'P%d;0;1!z' % i + body.hex().upper().encode() + ST
+    for _ in range(ctx.n(24, 120)):
+        depth = rng.randint(1, 4)
+        defs = hexdef(1, bytes(rng.choice(b'ABCDEFGH') for _ in range(rng.randint(0, 12))))
+        for k in range(2, depth + 1):
+            body = b''
+            for _ in range(rng.randint(0, 3)):
+                body += bytes(rng.choice(b'abcxyz') for _ in range(rng.randint(0, 3))) + E + b'[%d*z' % rng.randint(1, k - 1)
+            body += bytes(rng.choice(b'klm') for _ in range(rng.randint(0, 2)))
+            defs += hexdef(k, body)
+        # the depth actually reached by the top macro (a body may invoke shallower macros only)
+        out.append((defs, depth, None))
+    res = []
+    for defs, top, _ in out:
+        res.append((defs, top, macro_depth(defs, top)))
+    return res
+
+def macro_depth(defs, top):
+    """nesting depth of macro `top` in hex definitions produced by macro_nest_cases (1 = no invocation inside)"""
+    import re
+    bodies = {}
+    for mm in re.finditer(rb'\x1bP(\d+);0;1!z([0-9A-F]*)\x1b\\', defs):
+        bodies[int(mm.group(1))] = bytes.fromhex(mm.group(2).decode())
+    def d(i):
+        if i not in bodies: return 0
+        subs = [int(x) for x in re.findall(rb'\x1b\[(\d+)\*z', bodies[i])]
+        return 1 + max([d(j) for j in subs] or [0])
+    return d(top)
+
 def state_corr(ctx, meta, impl, model):
     """-> disagreements, number of non-trivial cases"""
     dis = []; nontriv = 0
@@ -632,11 +764,25 @@ def correspondence(ctx):
     while len(meta) < n:
         inter, final = rng.choice(MODELLED)
         w, h = rng.choice(sizes)
+        # the model's scrolls walk lists cell by cell (and the threaded allocation counter walks them again): 2^31-1 scrolls on 132 x 60 take minutes
+        if (w, h) == (132, 60) and ((inter, final) in ((' ', '@'), (' ', 'A')) or (inter == '' and final in 'STAkbB')): w, h = 40, 24
         pre = rng.choice(c_setups(w, h))
         vals = [0, 1, 2, h - 1, h, h + 1, w - 1, w, w + 1, w * h, 200, 3000, 65536, 1000000, 2147483647]
         k = rng.choice([0, 1, 1, 1, 2])
         t = tuple(rng.choice(vals) for _ in range(k))
+        if (inter, final) in RECT:          # the rectangle functions want 4 / 5 / 6 parameters (sometimes one too few / too many)
+            k = RECT[(inter, final)] + rng.choice([0, 0, 0, 0, 0, -1, 1])
+            rv = [0, 1, 2, h - 1, h, h + 1, w - 1, w, w + 1, 200, 99999, 2147483647]
+            t = tuple(rng.choice(rv) for _ in range(k))
+            if final == 'x' and t and rng.random() < 0.8: t = (rng.choice([32, 65, 0x2588, 0xD800, 1114112]),) + t[1:]
+            if final == 'y' and len(t) == 6 and rng.random() < 0.6:        # a valid rectangle inside the text area
+                a, b = sorted([rng.randint(0, h), rng.randint(0, h)]); c, d = sorted([rng.randint(0, w), rng.randint(0, w)])
+                t = (1, 1, a, c, b, d)
+        if (inter, final) == ('', 't'): t = (8, rng.choice(vals), rng.choice(vals)) if rng.random() < 0.8 else t
+        if (inter, final) == ('', '~'): t = (rng.choice([1, 2, 2, 3, 4, 5, 7]),)
         if final == 'b' and t and t[0] > 3000: t = (rng.choice([0, 1, w, w * h, 3000]),) + t[1:]
+        # REP through margins scrolls once per wrapped row; the model walks the region cell by cell (twice with the threaded counter): keep the count small on big screens
+        if final == 'b' and t and w * h > 240 and t[0] > 400: t = (rng.choice([w, 2 * w + 1, 400]),) + t[1:]
         meta.append((inter, final, w, h, pre, csi(inter, final, t), t))
     cases = ['seq 0 %d %d %s %s' % (w, h, hx(pre), hx(seq)) for _, _, w, h, pre, seq, _ in meta]
     exprs = ['run_seq %d %d %s %s' % (w, h, zl(pre), zl(seq)) for _, _, w, h, pre, seq, _ in meta]
@@ -653,17 +799,33 @@ def correspondence(ctx):
     extra_exprs = ['run_hex %s' % zl(s) for s in hexs] + ['run_glyphs %d %d' % g for g in glyphs]
     calib = ['calib 20000'] * 3
     hex_cases = ['seq 0 80 25 - %s' % hx(E + b'P1;0;1!z' + s + E + b'\\' + E + b'[1*z') for s in hexs]
+    # extension (c): the macro is defined in the (unmeasured) prefix after a form feed, the measured part is the invocation: characters printed (read off the caret) = macro length
+    hex_cases2 = ['seq 0 80 25 %s %s' % (hx(b'\x0c' + E + b'P1;0;1!z' + s + E + b'\\'), hx(E + b'[1*z')) for s in hexs]
+    nest = macro_nest_cases(ctx)
+    nest_cases = ['seq 0 80 25 %s %s' % (hx(b'\x0c' + defs), hx(E + b'[%d*z' % top)) for defs, top, depth in nest]
+    nest_exprs = ['run_macro_seq %d %s %d' % (depth, zl(defs), top) for defs, top, depth in nest] + \
+                 ['run_macro_seq %d %s %d' % (depth - 1, zl(defs), top) for defs, top, depth in nest]
     glyph_cases = ['font %s' % hx(b'\x36\x04\x00' + bytes([hh]) + b'\x00' * nn) for hh, nn in glyphs]
     smeta = state_corr_cases(ctx)
     st_cases = [st_case(0, w, h, len(a), a + b) for _, w, h, a, b, _, _ in smeta]
     st_exprs = ['run_state %d %d %s %s' % (w, h, zl(a), zl(b)) for _, w, h, a, b, _, _ in smeta]
-    impl = ctx.impl(cases + hex_cases + glyph_cases + calib + st_cases, per_case_timeout=5)
-    model = ctx.model(MODEL_IMPORTS, exprs + exprs_old + extra_exprs + st_exprs, timeout=900)
+    sixels = sixel_payloads(ctx)
+    sixel_cases = ['c03sixel %s' % hx(b) for b in sixels]
+    sixel_exprs = ['run_sixel_cost %s' % zl(b) for b in sixels]
+    files = loader_files(ctx)
+    load_cases = ['load %s %s' % (ext, hx(d)) for ext, fmt, d, tk_e, info in files]
+    load_exprs = ['run_load_shape %d %s' % (fmt, zl(d)) for ext, fmt, d, tk_e, info in files] + [tk_e for ext, fmt, d, tk_e, info in files]
+    ext_cases = hex_cases2 + nest_cases + sixel_cases + load_cases
+    impl = ctx.impl(cases + hex_cases + glyph_cases + calib + ext_cases + st_cases, per_case_timeout=5)
+    model = ctx.model(MODEL_IMPORTS, exprs + exprs_old + extra_exprs + nest_exprs + sixel_exprs + load_exprs + st_exprs, timeout=900)
     impl_st = impl[len(impl) - len(st_cases):]; impl = impl[:len(impl) - len(st_cases)]
+    impl_ext = impl[len(impl) - len(ext_cases):]; impl = impl[:len(impl) - len(ext_cases)]
     model_st = model[len(model) - len(st_exprs):]
+    e3 = len(model) - len(st_exprs); e2 = e3 - len(load_exprs); e1 = e2 - len(sixel_exprs); e0 = e1 - len(nest_exprs)
+    model_load = model[e2:e3]; model_sixel = model[e1:e2]; model_nest = model[e0:e1]
     tref = min([r[1][0] for r in impl[-3:] if r and r[0] == 'ok'] or [20000])
     per_tick = max(0.05, tref / 20000.0)          # microseconds per printed character in this run
-    dis = []; nontriv = set(); ratios = []; outliers = 0; dist = {}
+    dis = []; nontriv = set(); ratios = []; outliers = 0; dist = {}; bound_margin = []
     for i, (c, r, m, me) in enumerate(zip(cases, impl, model, meta)):
         name = fn_name(me[0], me[1]); dist[name] = dist.get(name, 0) + 1
         if m is None:
@@ -676,7 +838,8 @@ def correspondence(ctx):
         v = r[1]
         if m[0] < 0:
             dis.append({'case': c, 'impl': v, 'model': m, 'what': 'model panics/diverges, implementation returns'}); continue
-        cls, it, tk, al, mrows0, mrows, mcells0, mcells, mbh, mlh, mcx, mcy, mmax, mhash, mtw, mth = m
+        cls, it, tk, al, mrows0, mrows, mcells0, mcells, mbh, mlh, mcx, mcy, mmax, mhash, mtw, mth = m[:16]
+        ta, mscr = m[16], m[17]          # threaded allocation counter (Model/Alloc.v), screen measure of the state before the sequence
         state_impl = [1 if v[10] else 0, v[1], v[2], v[3], v[4], v[5], v[6], v[7], v[8], v[9], v[13], v[15], v[16]]
         state_model = [cls, mrows0, mrows, mcells0, mcells, mbh, mlh, mcx, mcy, mmax, mhash, mtw, mth]
         if state_impl != state_model:
@@ -684,6 +847,15 @@ def correspondence(ctx):
         grown = max(0, v[2] - v[1]) + max(0, v[4] - v[3])
         if grown > al:
             dis.append({'case': c, 'impl': grown, 'model': al, 'what': 'rows+cells allocated exceed the model alloc counter'}); continue
+        if grown > ta or al > ta:
+            dis.append({'case': c, 'impl': grown, 'model': [al, ta], 'what': 'rows+cells allocated exceed the THREADED allocation counter (alloc_dominates)'}); continue
+        # instances of alloc_bound / ticks_bound (every set-up of this stage satisfies the C09 invariant; REP is the known class)
+        if me[1] != 'b':
+            nb = len(me[5])
+            if ta > 8 * (nb + 1) * mscr or tk > 8 * (nb + 1) * mscr * mscr:
+                dis.append({'case': c, 'impl': [grown, v[0]], 'model': [ta, tk, mscr],
+                            'what': 'the model counters exceed the proved bounds 8(n+1)scr / 8(n+1)scr^2: the theorem does not speak about this model state'}); continue
+            bound_margin.append(ta / float(8 * (nb + 1) * mscr))
         budget = 50 * per_tick * tk + 50000
         ratios.append(v[0] / max(1.0, per_tick * tk))
         if v[0] > budget:
@@ -710,6 +882,87 @@ def correspondence(ctx):
             dis.append({'case': hex_cases[j], 'impl': r[1], 'model': m, 'what': 'hex macro accepted/rejected differently'})
         if m[0] == 1 and m[1] < m[2]:
             dis.append({'case': hex_cases[j], 'impl': r[1], 'model': m, 'what': 'iteration counter below the macro length'})
+    # extension (c): hexmacro_bound instance, printed characters = macro length; macro replay: printed <= macro_chars <= B * geom c depth
+    ext_n = 0
+    for j, s_ in enumerate(hexs):
+        m = model[base2 + j]; r = impl_ext[j]
+        if m is None or len(m) < 6: continue
+        ext_n += 1
+        if m[1] > m[5] * (1 + m[4]) or m[2] > m[5] * (1 + m[4]):
+            dis.append({'case': hex_cases2[j], 'impl': None, 'model': m, 'what': 'hex macro counter / length exceed zlen s * (1 + hex_reps): hexmacro_bound does not hold for this model value'}); continue
+        if m[0] == 1:
+            if r is None or r[0] != 'ok':
+                dis.append({'case': hex_cases2[j], 'impl': r, 'model': m, 'what': 'invocation of an accepted hex macro did not return'}); continue
+            printed = r[1][8] * 80 + r[1][7]        # caret after a form feed = characters printed (80 columns, auto-wrap, no margins)
+            if printed != m[2]:
+                dis.append({'case': hex_cases2[j], 'impl': printed, 'model': m[2], 'what': 'characters printed by the invocation differ from the length of the macro the model expands'})
+            elif printed > m[1]:
+                dis.append({'case': hex_cases2[j], 'impl': printed, 'model': m[1], 'what': 'characters printed exceed the iteration counter of parse_hex_macro_sequence'})
+    for j, (defs, top, depth) in enumerate(nest):
+        m = model_nest[j]; m0 = model_nest[len(nest) + j]; r = impl_ext[len(hexs) + j]
+        c = nest_cases[j]; ext_n += 1
+        if m is None or m0 is None or len(m) < 4:
+            dis.append({'case': c, 'impl': r, 'model': m, 'what': 'macro replay model evaluation failed'}); continue
+        if m[0] < 0 or m0[0] != -2:
+            dis.append({'case': c, 'impl': None, 'model': [m, m0], 'what': 'macro nesting depth: the model replays within fuel %d and must not within %d' % (depth, depth - 1)}); continue
+        if r is None or r[0] != 'ok':
+            dis.append({'case': c, 'impl': r, 'model': m, 'what': 'nested macro invocation did not return; the model replays %d characters' % m[0]}); continue
+        printed = r[1][8] * 80 + r[1][7]
+        if printed > m[0] or m[0] > m[3]:
+            dis.append({'case': c, 'impl': printed, 'model': m, 'what': 'characters printed > macro_chars, or macro_chars > B * geom c fuel (macro_replay_bound)'}); continue
+        if printed > 0: nontriv.add(c)
+    # extension (d): the sixel decoder: accept / reject, rows, bytes of the image = rows x longest row <= cap (sixel_image_bound), iterations within the bound
+    for j, b_ in enumerate(sixels):
+        m = model_sixel[j]; r = impl_ext[len(hexs) + len(nest) + j]; c = sixel_cases[j]; ext_n += 1
+        if m is None:
+            dis.append({'case': c, 'impl': r, 'model': None, 'what': 'sixel model evaluation failed'}); continue
+        if m[0] == 2:
+            if not (r and r[0] == 'panic'): dis.append({'case': c, 'impl': r, 'model': m, 'what': 'the sixel model panics (arithmetic overflow), the decoder does not'})
+            continue
+        if r is None or r[0] != 'ok':
+            dis.append({'case': c, 'impl': r, 'model': m, 'what': 'the decoder did not return; the model counts %d iterations' % m[1]}); continue
+        v = r[1]
+        if (m[0] == 0) != (v[1] == 1):
+            dis.append({'case': c, 'impl': v, 'model': m, 'what': 'sixel payload accepted / rejected differently'}); continue
+        if m[0] != 0: continue
+        it, reps, dw, dh, rows_, longest, nbytes, cap = m[1:9]
+        if v[3] != rows_ or v[4] != nbytes:
+            dis.append({'case': c, 'impl': v[1:5], 'model': m, 'what': 'sixel image: height / bytes differ (code: ok width height bytes; model: .. rows longest bytes cap)'}); continue
+        if nbytes > cap or it > len(b_) + 1 + reps:
+            dis.append({'case': c, 'impl': v[1:5], 'model': m, 'what': 'the model counters exceed sixel_image_bound / sixel_ticks_bound'}); continue
+        if v[0] > 50 * per_tick * (it + nbytes) + 50000 and v[0] > 5_000_000:
+            dis.append({'case': c, 'impl': v[0], 'model': m, 'what': 'sixel decode time beyond the 5 s limit while the model counts %d iterations' % it}); continue
+        if nbytes > 0: nontriv.add(c)
+        dist['extension: sixel images compared'] = dist.get('extension: sixel images compared', 0) + 1
+    # extension (e): binary loaders: accept / reject, width height rows cells of the loaded buffer; counters within load_ticks_bound_*; cells within the bound
+    for j, (ext, fmt, d_, tk_e, info) in enumerate(files):
+        m = model_load[j]; mt = model_load[len(files) + j]; r = impl_ext[len(hexs) + len(nest) + len(sixels) + j]; c = load_cases[j]; ext_n += 1
+        if m is None or mt is None:
+            dis.append({'case': c[:300], 'impl': r, 'model': [m, mt], 'what': 'loader model evaluation failed'}); continue
+        if m[0] == 2:
+            if not (r and r[0] == 'panic'): dis.append({'case': c[:300], 'impl': r, 'model': m, 'what': 'the loader model panics, the loader does not'})
+            continue
+        if r is None or r[0] != 'ok':
+            dis.append({'case': c[:300], 'impl': r, 'model': m, 'what': 'the loader did not return'}); continue
+        v = r[1]
+        if (m[0] == 0) != (v[4] == 1):
+            dis.append({'case': c[:300], 'impl': v, 'model': m, 'what': 'file accepted / rejected differently'}); continue
+        if m[0] != 0: continue
+        if [v[1], v[2], v[3], v[6]] != m[1:5]:
+            dis.append({'case': c[:300], 'impl': [v[1], v[2], v[3], v[6]], 'model': m[1:5], 'what': 'loaded buffer differs: width height rows cells'}); continue
+        body = info['body']; w_ = max(1, info['w']); tk = mt[0]; bad = None
+        if ext in ('bin', 'adf') or (ext == 'xb' and not info.get('comp')):
+            if 2 * tk > body or m[4] > max(info['base'], body // 2 + w_): bad = 'load_ticks_bound_pair'
+        elif ext == 'xb':
+            if tk > 65 * body or m[4] > tk + w_: bad = 'load_ticks_bound_xbc (cells <= counter + width is measured, not proved)'
+        elif ext == 'tnd':
+            if tk > body or mt[1] > 65534 or m[3] > max(25, mt[1] + tk + 1): bad = 'load_ticks_bound_tnd'
+        elif ext == 'idf':
+            if 2 * tk > body + 2 * mt[1]: bad = 'load_ticks_bound_idf'
+        if bad:
+            dis.append({'case': c[:300], 'impl': v[:8], 'model': [m, mt], 'what': 'the model counters exceed %s' % bad}); continue
+        if m[4] > 0: nontriv.add(c[:200])
+        dist['extension: loaded buffers compared (%s)' % ext] = dist.get('extension: loaded buffers compared (%s)' % ext, 0) + 1
     for j, g in enumerate(glyphs):
         m = model[base2 + len(hexs) + j]; r = impl[len(cases) + len(hexs) + j]
         if m is None or r is None or r[0] != 'ok':
@@ -721,11 +974,13 @@ def correspondence(ctx):
     dis = sdis + dis
     dist['state-comparison inputs (prepared state + entry + probe)'] = len(smeta)
     ratios.sort()
-    return {'cases': len(cases) + len(old) + len(hexs) + len(glyphs) + len(smeta), 'disagreements': dis, 'distinct_nontrivial': len(nontriv) + snontriv,
+    dist['extension: hex-macro length / macro replay / sixel decoder / binary loader cases'] = ext_n
+    return {'cases': len(cases) + len(old) + len(hexs) + len(glyphs) + len(smeta) + ext_n, 'disagreements': dis, 'distinct_nontrivial': len(nontriv) + snontriv,
             'distribution': {'per_control_function': dist, 'calibration_us_per_tick': round(per_tick, 4),
                              'time_over_model_ratio_median': round(ratios[len(ratios) // 2], 3) if ratios else None,
                              'time_over_model_ratio_max': round(ratios[-1], 3) if ratios else None,
-                             'cases_over_50x_budget(reported only)': outliers, 'clamped_vs_unclamped_model_cases': len(old),
+                             'cases_over_50x_budget(reported only)': outliers,
+                             'threaded_alloc_over_bound_max': round(max(bound_margin), 4) if bound_margin else None, 'clamped_vs_unclamped_model_cases': len(old),
                              'model_errors': getattr(ctx, 'model_errors', [])[:2]},
             'samples': [cases[0][:200], cases[len(cases) // 2][:200]]}
 
@@ -747,16 +1002,22 @@ def replay(ctx, body):
     print(json.dumps(body, indent=1))
     return 1
 
-LEVEL_TEXT = ('PARTIAL (by design: time and memory are runtime facts). Machine-checked (Coq, no axioms): for every CSI control function of the ANSI parser '
-              '(all final bytes, no intermediate and SP) on every state of the C09 invariant, the number of primitive calls is at most 4(n+1) x screen measure '
-              '(cost_bound), total inner iterations at most 4(n+1) x measure^2 (ticks_bound, REP excluded), unconditionally for SU SD ICH DCH IL DL SL SR CVT CBT '
-              'CUU ECH ED EL SGR after the ten clamp fixes, and for REP only under count <= tw*th (KnownC03_rep, rep_refuted/rep_linear show linear growth); '
-              'the counters are attached to the very model functions of C09/C01 (tick_version_same_state). Hex-macro repeat, macro recursion, sixel repeat/raster '
-              'are refuted classes with witnesses; glyph loading, Avatar repeat, window resize, rectangular areas are bounded. The property\'s own limits '
-              '(5 s, 1 GiB, stack) are applied to the complete control-function table on the real code by stage S.')
+LEVEL_TEXT = ('PARTIAL (by design: time and memory are runtime facts). Machine-checked (Coq, no axioms), for every state of the C09 invariant and ALL parameter values: '
+              'every CSI control function of the ANSI parser (all final bytes; no intermediate, SP, $ and DECRQCRA) makes at most 4(n+1) x screen measure primitive calls (cost_bound), '
+              'at most 8(n+1) x measure^2 weighted inner iterations (ticks_bound, ticks_bound_sp/_dollar/_rqcra; the rectangle functions are clipped to the screen: rect_clip) and '
+              'allocates at most 8(n+1) x measure rows + cells (alloc_bound, alloc_bound_sp/_dollar; threaded allocation counters that provably dominate the growth of the line table: '
+              'alloc_dominates, alloc_counts_growth) - unconditionally for SU SD ICH DCH IL DL SL SR CVT CBT CUU CUD ECH ED EL SGR DECFRA DECERA DECSERA DECRQCRA window resize after the ten clamp fixes; '
+              'REP is the known class (rep_refuted / rep_linear). Conditional bounds with the known class as the explicit parameter: hex-macro repeat groups (hexmacro_bound: '
+              'work and expansion <= (1 + largest repeat count) x length), macro replay (macro_replay_bound: geometric in the nesting depth; recursion refuted), the sixel decoder '
+              '(sixel_ticks_bound: iterations <= payload + executed repeat counts; sixel_alloc_bound / sixel_image_bound: bytes <= 4 max(T, declared width) x max(6T+6, declared height)), '
+              'the cell loops of the binary loaders BIN ADF XBin Tundra IDF (load_ticks_bound_*: cells stored <= bytes (x 65 for compressed XBin) + declared run lengths; rows x cells of the loaded layer). '
+              'The counters are attached to the very model functions of C09/C01/C14/C05/C02 (tick_version_same_state, alloc_version_same_state, *_arms_only, the fst-equalities inside the bounds). '
+              'The property\'s own limits (5 s, 1 GiB, stack) are applied to the complete control-function table on the real code by stage S.')
 LEVEL_NOTE = ('Theorems speak about iteration/allocation counts of the model; the tie to the code is stage C (full state equality after each sequence, '
               'allocation one-sided, time one-sided with a 50x calibrated factor; full terminal-state equality after short inputs in 40 prepared states incl. resized text areas) '
               'and stage S (absolute limits on the real code: single control functions, the same in prepared states, and probe suffixes on the state they leave). '
-              'Known classes: REP, hex-macro repeat, macro recursion, sixel raster/repeat.')
+              'Extension: stage C also compares the threaded allocation counter and instances of alloc_bound / ticks_bound on every CSI case, the rectangle functions, '
+              'characters printed by hex macros and nested macros (vs hexmacro_bound / macro_replay_bound), rows / bytes of decoded sixel images, and width / height / rows / cells of '
+              'buffers loaded from generated BIN ADF XBin Tundra IDF files. Known classes: REP, hex-macro repeat, macro recursion, sixel raster/repeat, declared sizes of loaders.')
 TECHNIQUE = ('Coq proof over tick-annotated model functions (arithmetic bounds from the C09 invariant) + exhaustive control-function table under process limits, '
              'on a fresh screen and on prepared states, with probe suffixes and terminal-state comparison against the model')
